@@ -116,6 +116,29 @@ Proof. split; [exact restoreident_source_is_model | exact restore_ident_mode_is_
 Theorem C08_restoreIdent_source_is_within_the_vocabulary : restoreident_vocabulary_ok = true.
 Proof. vm_compute. reflexivity. Qed.
 
+
+(* ... and which map entry each of those locals holds is read off the source as well (Gen/MergeSrc.v:
+   merge_slots): resolving the locals of the three calls gives exactly the thirteen slots
+   {1}{2}{3}{4}[X].{5}{6}{7}{8}{9}[Sel]{10}{11}{12}{13} of Model/Merge.collapse -- Before and After of the
+   selector copied, Start = n.Start, X.Before, X.Start; X = X.End, X.After, n.X, Sel.Before, Sel.Start;
+   End = Sel.End, Sel.After, n.End *)
+Definition slot_of (x : string) : string * string * string :=
+  match List.find (fun e => String.eqb (fst (fst (fst e))) x) merge_slots with
+  | Some (_, m, node, point) => (m, node, point)
+  | None => ("?", "?", "?")
+  end.
+
+Theorem C08_merge_slots_are_the_models :
+  (slot_of "out.Decs.Before", slot_of "out.Decs.After",
+   map (fun c => (fst c, map slot_of (snd c))) merge_calls)
+  = (("before", "n", ""), ("after", "n", ""),
+     [("Start", [("decorations", "n", "Start"); ("before", "n.X", ""); ("decorations", "n.X", "Start")]);
+      ("X", [("decorations", "n.X", "End"); ("after", "n.X", ""); ("decorations", "n", "X");
+             ("before", "n.Sel", ""); ("decorations", "n.Sel", "Start")]);
+      ("End", [("decorations", "n.Sel", "End"); ("after", "n.Sel", ""); ("decorations", "n", "End")])])
+  /\ List.length merge_slots = 13%nat.
+Proof. vm_compute. split; reflexivity. Qed.
+
 Print Assumptions C08_collapse_keeps_every_comment.
 Print Assumptions C08_merged_spacing_renders_the_same_line_breaks.
 Print Assumptions C08_imports_untouched_when_nothing_changes.
@@ -125,3 +148,4 @@ Print Assumptions C08_merge_calls_are_the_models.
 Print Assumptions C08_merge_source_runs.
 Print Assumptions C08_restoreIdent_source_computes_the_model.
 Print Assumptions C08_restoreIdent_source_is_within_the_vocabulary.
+Print Assumptions C08_merge_slots_are_the_models.
